@@ -375,6 +375,21 @@ func c26Gen(r *Rng, tier string, emit func(string)) {
 				emit("remove " + hx(addr()))
 			case k < 62:
 				emit("trust " + hx(addr()))
+			case k < 64:
+				// a peer that stays unreachable: its retry counter runs up to and past every threshold the code
+				// knows (MaxPeerRetryTimes = 10), possibly a trusted one, and then the clean-up tick runs
+				a := addr()
+				if r.Chance(50) {
+					emit("trust " + hx(a))
+				}
+				for q, m := 0, r.Range(9, 14); q < m; q++ {
+					emit("incretry " + hx(a))
+				}
+				emit("clearold")
+				if r.Chance(50) {
+					emit("advance " + strconv.Itoa(exp+1))
+					emit("clearold")
+				}
 			case k < 66:
 				emit("incretry " + hx(addr()))
 			case k < 69:
